@@ -4,8 +4,10 @@ package mc
 
 import (
 	"fmt"
+	"time"
 
 	"cosmossdk.io/math"
+	sdk "github.com/cosmos/cosmos-sdk/types"
 	ctypes "github.com/elys-network/elys/x/commitment/types"
 )
 
@@ -124,6 +126,132 @@ func c12kAll() (cases int64, findings []foundViolation) {
 						if cl, det := c12kEval(c); cl != "" && !seen[cl] {
 							seen[cl] = true
 							findings = append(findings, foundViolation{Finding: Finding{Clause: cl, Culprit: "DeductFromCommitted", Disc: fmt.Sprintf("liquidation=%v", liq), Detail: det}, Root: "K", Trace: []string{fmt.Sprintf("%+v", c)}})
+						}
+					}
+				}
+			}
+		}
+	}
+	return
+}
+
+// ---------------------------------------------------------------------------------------------
+// Keeper-level product: the SAME ledger is built through the REAL Keeper.CommitLiquidTokens (one call
+// per lock-up, in list order, any order of unlock times) and withdrawn through the REAL
+// Keeper.UncommitTokens, on discarded branches of a real application state. This covers what the
+// type-level product above cannot see: anything the keeper does to the record between the calls.
+
+func c12kKeeperAll(maxLocks int) (cases int64, findings []foundViolation) {
+	w := NewWorld(FixtureCfg{})
+	defer w.Close()
+	k := w.App.CommitmentKeeper
+	denom := "amm/pool/2"
+	who := w.A("q1").Addr
+	base, _ := w.Ctx().CacheContext()
+	t0 := w.Env.Tm + 5
+	base = base.WithBlockHeight(w.Height() + 1).WithBlockTime(time.Unix(t0, 0).UTC())
+	// liquid share tokens for the account (minted on the branch only)
+	funds := sdk.NewCoins(sdk.NewCoin(denom, math.NewInt(1000)))
+	if err := w.App.BankKeeper.MintCoins(base, "amm", funds); err != nil {
+		return 0, []foundViolation{{Finding: Finding{Clause: "harness_error", Detail: err.Error()}, Root: "K"}}
+	}
+	if err := w.App.BankKeeper.SendCoinsFromModuleToAccount(base, "amm", who, funds); err != nil {
+		return 0, []foundViolation{{Finding: Finding{Clause: "harness_error", Detail: err.Error()}, Root: "K"}}
+	}
+	amts := []int64{1, 5, 10}
+	times := []int64{90, 100, 110}
+	nows := []int64{89, 90, 91, 99, 100, 101, 109, 110, 111}
+	var shapes [][][2]int64
+	var build func(cur [][2]int64)
+	build = func(cur [][2]int64) {
+		if len(cur) > 0 {
+			shapes = append(shapes, append([][2]int64{}, cur...))
+		}
+		if len(cur) == maxLocks {
+			return
+		}
+		for _, a := range amts {
+			for _, t := range times {
+				build(append(cur, [2]int64{a, t}))
+			}
+		}
+	}
+	build(nil)
+	seen := map[string]bool{}
+	report := func(cl, det string, c c12kCase) {
+		if cl != "" && !seen[cl] {
+			seen[cl] = true
+			findings = append(findings, foundViolation{Finding: Finding{Clause: cl, Culprit: "Keeper.CommitLiquidTokens+UncommitTokens", Disc: fmt.Sprintf("liquidation=%v", c.Liq), Detail: det}, Root: "K", Trace: []string{fmt.Sprintf("%+v", c)}})
+		}
+	}
+	for _, sh := range shapes {
+		for _, free := range []int64{0, 3} {
+			// build the ledger once per (shape, free) on its own branch
+			led, _ := base.CacheContext()
+			ok := true
+			total := free
+			if free > 0 {
+				if err := k.CommitLiquidTokens(led, who, denom, math.NewInt(free), 0); err != nil {
+					ok = false
+				}
+			}
+			for i, l := range sh {
+				c := led.WithBlockTime(time.Unix(t0+int64(i), 0).UTC())
+				if err := k.CommitLiquidTokens(c, who, denom, math.NewInt(l[0]), uint64(t0+l[1])); err != nil {
+					ok = false
+				}
+				total += l[0]
+			}
+			if !ok {
+				report("commit_refused", fmt.Sprintf("CommitLiquidTokens refused while building %v", sh), c12kCase{Locks: sh, Free: free})
+				continue
+			}
+			cmLed := k.GetCommitments(led, who)
+			if got := cmLed.GetCommittedAmountForDenom(denom); !got.Equal(math.NewInt(total)) {
+				report("committed_amount_after_commits", fmt.Sprintf("commits %v + %d give %s", sh, free, got), c12kCase{Locks: sh, Free: free})
+			}
+			for _, now := range nows {
+				live := int64(0)
+				for _, l := range sh {
+					if l[1] > now {
+						live += l[0]
+					}
+				}
+				wd := total - live
+				for _, amt := range []int64{1, wd - 1, wd, wd + 1, total, total + 1} {
+					if amt <= 0 {
+						continue
+					}
+					for _, liq := range []bool{false, true} {
+						c := c12kCase{sh, free, now, amt, liq}
+						cases++
+						br, _ := led.CacheContext()
+						br = br.WithBlockTime(time.Unix(t0+now, 0).UTC())
+						var err error
+						func() {
+							defer func() {
+								if r := recover(); r != nil {
+									err = fmt.Errorf("panic: %v", r)
+								}
+							}()
+							err = k.UncommitTokens(br, who, denom, math.NewInt(amt), liq)
+						}()
+						wantOK := amt <= wd
+						if liq {
+							wantOK = amt <= total
+						}
+						switch {
+						case wantOK && err != nil:
+							report("withdrawable_amount_refused", fmt.Sprintf("committed %d, live lock-ups %d, withdraw %d at t=%d liquidation=%v refused: %v (lock-ups %v)", total, live, amt, now, liq, err, sh), c)
+						case !wantOK && err == nil && amt > total:
+							report("uncommit_of_more_than_held_accepted", fmt.Sprintf("committed %d, withdraw %d accepted", total, amt), c)
+						case !wantOK && err == nil:
+							report("locked_amount_withdrawn_by_owner", fmt.Sprintf("committed %d of which %d still locked at t=%d; owner withdrawal of %d accepted (lock-ups in commit order %v)", total, live, now, amt, sh), c)
+						case err == nil:
+							cmBr := k.GetCommitments(br, who)
+							if got := cmBr.GetCommittedAmountForDenom(denom); !got.Equal(math.NewInt(total - amt)) {
+								report("committed_amount_after_withdrawal", fmt.Sprintf("committed %d - %d gives %s", total, amt, got), c)
+							}
 						}
 					}
 				}
